@@ -109,6 +109,14 @@ C_MUTANTS = [
     ('C37', ['dl_close_lib'], 'src/c/_cffi_backend.c',
      '        dlclose(dlobj->dl_handle);\n        dlobj->dl_handle = NULL;\n    }\n    Py_INCREF(Py_None);',
      '        dlclose(dlobj->dl_handle);\n    }\n    Py_INCREF(Py_None);'),
+    ('C06', ['search_standard_typename'], 'src/c/parse_c_type.c',
+     '        if (size == 12 && !memcmp(p, "int_fast32", 10)) return _CFFI_PRIM_INT_FAST32;',
+     '        if (size == 12 && !memcmp(p, "int_fast32",  9)) return _CFFI_PRIM_INT_FAST32;'),
+    ('C06', ['types table'], 'src/c/_cffi_backend.c',
+     '       EPTYPE(sz, size_t, CT_PRIMITIVE_UNSIGNED)                \\',
+     '       EPTYPE(sz, size_t, CT_PRIMITIVE_SIGNED)                \\'),
+    ('C06', ['primitive_name'], 'src/c/realize_c_type.c',
+     '        "int_least16_t",\n        "uint_least16_t",', '        "uint_least16_t",\n        "int_least16_t",'),
     ('C18', ['b_unpack'], 'src/c/_cffi_backend.c',
      '        case 6: x = PyLong_FromLong((long)*(unsigned int *)src); break;',
      '        case 6: x = PyLong_FromLong((long)*(int *)src); break;'),
@@ -129,7 +137,7 @@ C_MUTANTS = [
      '            *result++ = 0xDC00 | (ordinal & 0x3FF);', '            *result++ = 0xDC00 | (ordinal & 0x1FF);'),
     ('C11', ['cdl_4bytes'], 'src/c/cdlopen.c',
      '    return (ssrc[0] << 24) | (usrc[1] << 16) | (usrc[2] << 8) | usrc[3];',
-     '    return (usrc[0] << 24) | (usrc[1] << 16) | (usrc[2] << 8) | usrc[3];'),
+     '    return (ssrc[0] << 24) | (usrc[1] << 8) | (usrc[2] << 16) | usrc[3];'),   # (usrc[0] << 24 is equivalent under gcc)
     ('C11', ['format_four_bytes'], 'src/cffi/cffi_opcode.py',
      '        (num >> 16) & 0xFF,', '        (num >> 16) & 0x7F,'),
     ('C03', ['export table'], 'src/c/_cffi_backend.c',
